@@ -32,6 +32,22 @@ CLAIMED = {
         'Structural necessary conditions of the fault-injection property, '
         'checked on all paths rather than on sampled crash points.',
         'DESIGN.md section 5, C14'),
+    'C19': (
+        'interprocedural path-effect analysis seeded from the argschema '
+        'declarations, CFG acquire/release pairing with ownership transfer '
+        'over the call graph, freshness provenance',
+        'Decides: no CLI stage (with callees and worker targets) has a '
+        'write/remove effect on a path its schema declares as input (the '
+        'documented obsm write excepted) and every write lands on a '
+        'declared output or in scratch space; every mkdtemp/mkstemp_clean '
+        'acquisition is released on every normal path of every stage and '
+        'on every path (following definite failure edges) of a mapping '
+        'run, in its frame, by an owner object or by the calling frame '
+        'that owns the parent directory; only freshly created directories '
+        'are listed or given fixed-name files; per-worker output '
+        'locations are distinct per dispatch. OS-level concurrency and '
+        'the content of the appended log file are not decided.',
+        'DESIGN.md section 5, C19'),
 }
 
 NOT_APPLICABLE = {
